@@ -676,8 +676,25 @@ class Execution:
                         break
 
     # ---- C09 --------------------------------------------------------------------------------------------------------
+    def boundary_tie(self):
+        """A cell-boundary event is pending within 4 ulp of the time of the last commit: the two events are simultaneous
+        within rounding, their order is unspecified, and the occupancy (a function of the position, which is then *on*
+        the boundary) may already name the next cell.  Only configurations whose lengths and intervals are commensurate
+        reach this; it is counted as a float tie, not judged."""
+        now = self.last_time
+        if now is None:
+            return False
+        for h, (t, ids, b, c) in self.pending.items():
+            if c is not None and tagger_kind(t) == "cell_boundary":
+                if abs((c[0] - now[0]) + (c[1] - now[1])) <= 4.5e-16:
+                    return True
+        return False
+
     def check_c09(self):
         if not self.commits:
+            return
+        if self.act._internal_states and self.boundary_tie():
+            self.stats["float_ties_boundary"] += 1
             return
         active = self.sh.extract_active_global_state()
         start_tagger = self.tagger_of[self.start_handler]
@@ -717,6 +734,8 @@ class Execution:
         (or the targets of the pending cell-bounding events), are exactly the recorded non-active relevant units, each
         once."""
         if not self.commits or not self.act._internal_states:
+            return
+        if self.boundary_tie():
             return
         for ist in self.act._internal_states:
             if not hasattr(ist, "yield_active_cells"):
